@@ -14,16 +14,16 @@ ALL = [f'C{i:02d}' for i in range(1, 21)]
 
 # which checks drive which part of the library (by workload, see DESIGN.md §3)
 RELATED = [
-    ('pjrpc/server/dispatcher.py', ['C01', 'C02', 'C03', 'C04', 'C10', 'C11', 'C12', 'C13', 'C15']),
+    ('pjrpc/server/dispatcher.py', ['C01', 'C02', 'C03', 'C04', 'C12', 'C15']),
     ('pjrpc/server/utils.py', ['C04', 'C15', 'C16', 'C17']),
     ('pjrpc/server/typedefs.py', ['C12']),
-    ('pjrpc/server/validators/', ['C03', 'C04', 'C14', 'C17', 'C13']),
+    ('pjrpc/server/validators/', ['C03', 'C04', 'C14']),
     ('pjrpc/server/specs/', ['C16', 'C17']),
     ('pjrpc/server/integration/', ['C18', 'C12']),
-    ('pjrpc/common/', ['C01', 'C02', 'C03', 'C05', 'C06', 'C07', 'C08', 'C11']),
-    ('pjrpc/client/client.py', ['C07', 'C08', 'C09', 'C11', 'C19']),
-    ('pjrpc/client/retry.py', ['C09', 'C11', 'C19']),
-    ('pjrpc/client/tracer.py', ['C19', 'C11']),
+    ('pjrpc/common/', ['C01', 'C02', 'C05', 'C06', 'C07', 'C08']),
+    ('pjrpc/client/client.py', ['C07', 'C08', 'C09', 'C19']),
+    ('pjrpc/client/retry.py', ['C09', 'C19']),
+    ('pjrpc/client/tracer.py', ['C19']),
     ('pjrpc/client/integrations/pytest.py', ['C20']),
     ('pjrpc/client/backend/', ['C07']),
     ('pjrpc/__init__.py', ['C01', 'C05', 'C07']),
@@ -52,6 +52,8 @@ def main():
     seeds = sorted(d for d in os.listdir(os.path.join(HERE, 'seeded')) if os.path.isdir(os.path.join(HERE, 'seeded', d)))
     if a.only:
         seeds = [s for s in seeds if s in a.only.split(',')]
+    # round by round (all `a` changes first, then `b`, ...): an interrupted run has covered every property evenly
+    seeds.sort(key=lambda s_: (s_[3:], s_[:3]))
     checks = a.checks.split(',') if a.checks else ALL
     path = os.path.join(HERE, 'seeded', 'MATRIX.json')
     matrix = json.load(open(path)) if os.path.exists(path) else {}
